@@ -223,9 +223,20 @@ func AddStandardFilters(fd FilterDictionary) { //nolint: gocyclo
 	fd.AddFilter("truncate", func(s string, length func(int) int, ellipsis func(string) string) string {
 		n := length(50)
 		el := ellipsis("...")
-		// runes aren't bytes; don't use slice
-		re := regexp.MustCompile(fmt.Sprintf(`^(.{%d})..{%d,}`, n-len(el), len(el)))
-		return re.ReplaceAllString(s, `$1`+el)
+		// count characters, not bytes
+		if utf8.RuneCountInString(s) <= n {
+			return s
+		}
+		keep := n - utf8.RuneCountInString(el)
+		end := 0
+		for i := range s {
+			if keep <= 0 {
+				end = i
+				break
+			}
+			keep--
+		}
+		return s[:end] + el
 	})
 	fd.AddFilter("truncatewords", func(s string, length func(int) int, ellipsis func(string) string) string {
 		el := ellipsis("...")
